@@ -91,7 +91,7 @@ var valueFmt = regexp.MustCompile(`^-?[0-9]+\.[0-9]{8}$`)
 func newOraEnv(fl *drv.Flags) *oraEnv {
 	e := &oraEnv{
 		users:    []string{"u1", "u2", "u3"}[:fl.CfgInt("users", 2)],
-		provs:    []string{"p1", "p2", "p3"}[:fl.CfgInt("provs", 2)],
+		provs:    []string{"p1", "p2", "p3", "p4"}[:fl.CfgInt("provs", 2)],
 		price:    fl.CfgInt("price", 10),
 		maxTO:    fl.CfgInt("maxtimeout", 3),
 		taxNum:   fl.CfgInt("taxnum", 1),
@@ -572,6 +572,9 @@ func (e *oraEnv) epilogue(w *chain.TraceWriter) {
 }
 
 func oracleDriver(mode string, fl *drv.Flags) error {
+	if mode == "rows" {
+		return oraRows(fl) // magnitude tier of C17 (big.go)
+	}
 	w := chain.NewTraceWriter(fl.Out)
 	defer w.Close()
 	switch mode {
